@@ -219,7 +219,7 @@ def strip_generics(path):
                     if d == 0: break
                 j += 1
             inner = path[i + 1:j]
-            if inner.startswith('impl '):
+            if inner.startswith('impl ') and not is_qself(path, i):
                 out.append(path[i:j + 1])
             elif is_qself(path, i):
                 k = _find_as(inner)
